@@ -51,6 +51,10 @@ pub enum Rhs {
     F(u8),
     /// a fresh constant of the captured value
     FC,
+    /// a fresh *variable* holding the captured value, created inside the closure (`state.var`, or with `true`
+    /// `state.var_current_scope`); the `Var` handle is dropped before the closure returns, the watch node is the result.
+    /// Behaves like `FC`; exercises variable creation / teardown in the middle of a stabilise.
+    FV(bool),
     /// creates and drops a throw-away node, then like F
     FG(u8),
     /// fresh two-node chain: inc(captured_mix(lhs value, x))
@@ -67,6 +71,7 @@ impl Rhs {
             Rhs::E(x) => json!({"E": x}),
             Rhs::F(x) => json!({"F": x}),
             Rhs::FC => json!("FC"),
+            Rhs::FV(c) => json!({"FV": c}),
             Rhs::FG(x) => json!({"FG": x}),
             Rhs::FF(x) => json!({"FF": x}),
             Rhs::NB(l, e, o) => json!({"NB": [l, e.to_json(), o.to_json()]}),
@@ -83,6 +88,7 @@ impl Rhs {
             "E" => Rhs::E(v.as_u64()? as u8),
             "F" => Rhs::F(v.as_u64()? as u8),
             "FG" => Rhs::FG(v.as_u64()? as u8),
+            "FV" => Rhs::FV(v.as_bool()?),
             "FF" => Rhs::FF(v.as_u64()? as u8),
             "ST" => Rhs::ST(v.as_u64()? as u8),
             "NB" => {
@@ -100,7 +106,7 @@ impl Rhs {
     pub fn refs(&self, out: &mut Vec<u8>) {
         match self {
             Rhs::E(x) | Rhs::F(x) | Rhs::FG(x) | Rhs::FF(x) | Rhs::ST(x) => out.push(*x),
-            Rhs::FC => {}
+            Rhs::FC | Rhs::FV(_) => {}
             Rhs::NB(l, e, o) => {
                 out.push(*l);
                 e.refs(out);
